@@ -189,7 +189,18 @@ def matCase {α β} (me : ME α) (meIdeal : Option (ME α)) (se : SE β) (routin
       --    the implementation panicked or answered something else:
       --    `fail machine-integer-overflow` (known finding F-C18-overflow, by cause class).
       match meIdeal with
-      | none => (m, runSpec se routine nr nc k a b out)
+      | none =>
+        -- field back-ends (big rationals, prime residues).  The property fixes the null space only
+        -- as a subspace ("exactly columns-minus-rank independent columns annihilated by the
+        -- matrix"), not its basis — which non-zero pivot the elimination picks is free (found by
+        -- the harmless-rewrite study).  Over a field, n − rank independent vectors of the kernel
+        -- are a basis of it, so when the three null-space clauses hold for the implementation's
+        -- columns they span the same space as the model's: the implementation's tokens are then
+        -- echoed as the model payload; otherwise the model's basis is printed.
+        let sv := runSpec se routine nr nc k a b out
+        let m := if (routine == "nsm" || routine == "ns") && se.complete && sv == ok
+                    && m != "PANIC" && m != "ERR" then joinToks out.toList else m
+        (m, sv)
       | some mi =>
         match runModel mi routine nr nc k a b with
         | none => bad
